@@ -106,7 +106,10 @@ REFACTORS = [
     ('r-mutexwrapped-lock-guard-style', ['C11'], MW, 'std::unique_lock lock(m_mutex);', 'std::unique_lock<std::mutex> lock{m_mutex};', 0),
 ]
 
-BUDGET = {'C11': ['--models', '8', '--runs', '600']}
+# budgets below the quick tier's: the catalogue has ~150 items, and a planted defect that needs the full quick budget to
+# show would be a weak catch anyway
+BUDGET = {'C11': ['--models', '8', '--runs', '600'], 'C01': ['--models', '24', '--runs', '60'], 'C02': ['--models', '24', '--runs', '60'],
+          'C04': ['--models', '12', '--runs', '150'], 'C09': ['--models', '24', '--runs', '20']}
 
 
 def _replace_nth(text, old, new, n):
@@ -213,7 +216,12 @@ def run_catalogue():
     for meta_path in sorted(glob.glob(os.path.join(engine.VERIF, 'seeded', '*', 'meta.json'))):
         sid = os.path.basename(os.path.dirname(meta_path))
         meta = json.load(open(meta_path))
-        items.append(('patch', 'seeded-' + sid, [meta['property']], os.path.join(os.path.dirname(meta_path), 'patch.diff')))
+        import re
+        # the checks that were seen to report it when it was evaluated (usually, but not always, the check of the property
+        # it was written against: e.g. a lost out-argument planted for C02 is C01's and C04's subject)
+        caught = [m.group(1) for c in meta.get('caught_by', []) for m in [re.match(r'^(?:missed[^;]*; )?(C\d\d)\b', c)] if m]
+        caught = [meta['property']] if (meta['property'] in caught or not caught) else caught[:1]
+        items.append(('patch', 'seeded-' + sid, caught, os.path.join(os.path.dirname(meta_path), 'patch.diff')))
     for meta_path in sorted(glob.glob(os.path.join(engine.VERIF, 'seeded', 'refactors', '*', 'meta.json'))):
         sid = os.path.basename(os.path.dirname(meta_path))
         meta = json.load(open(meta_path))
